@@ -358,6 +358,8 @@ pub struct PlainSys<O: PlainOracle> {
     pub storms: Vec<(u32, bool)>,
     pub pump_cycles: Vec<Vec<(u8, u8)>>,
     pub pump_reps: u32,
+    /// number of leading `pump_cycles` additionally offered with 70000 rounds near the initial state
+    pub long_pumps: usize,
     /// controller numbers for which some explored transition changed the state or reported
     pub reacted: Vec<AtomicBool>,
 }
@@ -390,6 +392,7 @@ impl<O: PlainOracle> PlainSys<O> {
             storms: Vec::new(),
             pump_cycles: Vec::new(),
             pump_reps: 300,
+            long_pumps: 0,
             reacted: (0..128).map(|_| AtomicBool::new(false)).collect(),
         }
     }
@@ -416,10 +419,10 @@ impl<O: PlainOracle> PlainSys<O> {
         self
     }
 
-    fn pump(&self, s: &PState<O>, cycle: &[(u8, u8)]) -> Step<PState<O>> {
+    fn pump(&self, s: &PState<O>, cycle: &[(u8, u8)], reps: u32) -> Step<PState<O>> {
         let mut cur = s.clone();
         let mut v = Vec::new();
-        'outer: for it in 0..self.pump_reps {
+        'outer: for it in 0..reps {
             for &(c, val) in cycle {
                 let r = self.do_cc_depth(&cur, c, val, true, 1);
                 if !r.violations.is_empty() {
@@ -629,7 +632,14 @@ impl<O: PlainOracle> PlainSys<O> {
                 }
                 Step { strict: true, next: Some(PState { sc, m: s.m.clone() }), obs: 0, violations: v }
             }
-            PAct::Pump(i) => self.pump(s, &self.pump_cycles[*i as usize]),
+            PAct::Pump(i) => {
+                let n = self.pump_cycles.len();
+                if (*i as usize) < n {
+                    self.pump(s, &self.pump_cycles[*i as usize], self.pump_reps)
+                } else {
+                    self.pump(s, &self.pump_cycles[*i as usize - n], 70_000)
+                }
+            }
             PAct::ResetProbe => {
                 let mut v = Vec::new();
                 if self.report.reset {
@@ -698,6 +708,11 @@ impl<O: PlainOracle> System for PlainSys<O> {
                 out.push(PAct::Pump(i as u16));
             }
         }
+        if depth <= 2 {
+            for i in 0..self.long_pumps.min(self.pump_cycles.len()) {
+                out.push(PAct::Pump((self.pump_cycles.len() + i) as u16));
+            }
+        }
         for i in 0..self.others.len() {
             out.push(PAct::Other(i as u32));
         }
@@ -761,7 +776,11 @@ impl<O: PlainOracle> System for PlainSys<O> {
             PAct::ResetProbe => "resetprobe".to_string(),
             PAct::ResetStorm(i) => format!("resetstorm:{}:{}", self.storms[*i as usize].0, self.storms[*i as usize].1),
             PAct::TouchAll => "touchall".to_string(),
-            PAct::Pump(i) => format!("pump:{}x{:?}", self.pump_reps, self.pump_cycles[*i as usize]).replace(' ', ""),
+            PAct::Pump(i) => {
+                let n = self.pump_cycles.len();
+                let (reps, c) = if (*i as usize) < n { (self.pump_reps, &self.pump_cycles[*i as usize]) } else { (70_000, &self.pump_cycles[*i as usize - n]) };
+                format!("pump:{}x{:?}", reps, c).replace(' ', "")
+            }
         }
     }
     fn rust_preamble(&self) -> String {
@@ -788,7 +807,11 @@ impl<O: PlainOracle> System for PlainSys<O> {
                 }
             }
             PAct::TouchAll => "for c in 0..16 { scanner.feed(&helgoboss_midi::test_util::note_on(c, 1, 1)); }".to_string(),
-            PAct::Pump(i) => format!("for _ in 0..{} {{ for (n, v) in {:?} {{ scanner.feed(&helgoboss_midi::test_util::control_change({}, n, v)); }} }}", self.pump_reps, self.pump_cycles[*i as usize], self.ch),
+            PAct::Pump(i) => {
+                let n = self.pump_cycles.len();
+                let (reps, c) = if (*i as usize) < n { (self.pump_reps, &self.pump_cycles[*i as usize]) } else { (70_000, &self.pump_cycles[*i as usize - n]) };
+                format!("for _ in 0..{} {{ for (n, v) in {:?} {{ scanner.feed(&helgoboss_midi::test_util::control_change({}, n, v)); }} }}", reps, c, self.ch)
+            }
         }
     }
 }
